@@ -120,13 +120,23 @@ Proof. exact pool_complete_outs. Qed.
 Print Assumptions c20_worker_pool_complete_results.
 
 (* Entity life cycle.  For every deployment script (key pairs installed at paths with any time
-   stamps, in place / by rename / by symlink switch, entities built in between, roll-overs and
-   roll-backs): the key pair an entity signs with and the certificate it publishes are both the pair
-   that was installed at its path when it was built *)
+   stamps, in place / by rename / by symlink switch, entities built in between from dicts, Config objects
+   and python configuration FILES, roll-overs and roll-backs) in which every configuration file asked
+   for exists and no configuration file is touched after a file of its base name has been loaded: the key
+   pair an entity signs with and the certificate it publishes are both the pair that was installed at
+   the path its OWN configuration names when it was built (strict reading, `published`) *)
 Theorem c20_deploy_own_pair :
-  forall d, deploy_keys d = published d /\ deploy_certs d = published d.
+  forall d, files_present d = true -> no_reedit d = true ->
+    deploy_keys d = published d /\ deploy_certs d = published d.
 Proof. exact deploy_published. Qed.
 Print Assumptions c20_deploy_own_pair.
+
+(* scripts without configuration files (everything up to round 4) meet both hypotheses: the statement of rounds
+   2-4, unchanged *)
+Theorem c20_deploy_own_pair_no_files :
+  forall d, no_files d = true -> deploy_keys d = published d /\ deploy_certs d = published d.
+Proof. exact deploy_published_no_files. Qed.
+Print Assumptions c20_deploy_own_pair_no_files.
 
 (* ... and the whole process - deployment by the main thread, jobs of the entities served by OS
    workers under every schedule - satisfies the property with respect to those certificates *)
@@ -134,15 +144,78 @@ Theorem c20_deploy_pool_own_key :
   forall (sigv : Type) (sign : nat -> nat -> payload -> sigv) (verify : nat -> nat -> payload -> sigv -> bool),
     (forall k d p k' d' p', verify k' d' p' (sign k d p) = true <-> k' = k /\ d' = d /\ p' = p) ->
     forall d g ps ws wsched,
+      files_present d = true -> no_reedit d = true ->
       spec sigv verify {| keys := published d; gon := g; progs := ps; sched := wsched |}
            (observe_all sigv verify (deploy_certs d) (outs sigv (dfinal sigv sign verify d g ps ws wsched))).
 Proof. exact deploy_pool_holds. Qed.
 Print Assumptions c20_deploy_pool_own_key.
 
+(* Configuration SOURCES (round 5).  Whatever the loader handed back - current code or the code before ca0d12ee,
+   any script - the key an entity's backend holds and the certificate the entity publishes are ONE pair: both are
+   read, at one moment, from the files one and the same configuration names *)
+Theorem c20_source_key_is_cert :
+  forall d, deploy_keys d = deploy_certs d /\ deploy_keys_v0 d = deploy_certs_v0 d.
+Proof. exact deploy_keys_certs_both. Qed.
+Print Assumptions c20_source_key_is_cert.
+
+(* THE KEY AN ENTITY SIGNS WITH IS A KEY ITS OWN CONFIGURATION SOURCE NAMES.  For every script in which every
+   configuration file asked for exists - same or different base names in the same or different directories, loaded
+   in any order, any number of times, through any entry point and spelling, edited or removed and rewritten in
+   between - every entity holds a pair that its own source accounts for: the dict / Config object it was built from,
+   or, for a file, a path that VERY file has named (module table keyed by base name, checked against the file asked
+   for: Model.load_module).  Never another tenant's. *)
+Theorem c20_source_own_key :
+  forall d, files_present d = true -> own_source (accounted d) (deploy_keys d).
+Proof. exact deploy_own_source_keys. Qed.
+Print Assumptions c20_source_own_key.
+
+(* ... and the whole process satisfies the property with respect to the certificates the entities hold *)
+Theorem c20_source_pool_own_key :
+  forall (sigv : Type) (sign : nat -> nat -> payload -> sigv) (verify : nat -> nat -> payload -> sigv -> bool),
+    (forall k d p k' d' p', verify k' d' p' (sign k d p) = true <-> k' = k /\ d' = d /\ p' = p) ->
+    forall d g ps ws wsched,
+      files_present d = true ->
+      own_source (accounted d) (deploy_certs d) /\
+      spec sigv verify {| keys := deploy_certs d; gon := g; progs := ps; sched := wsched |}
+           (observe_all sigv verify (deploy_certs d) (outs sigv (dfinal sigv sign verify d g ps ws wsched))).
+Proof. exact deploy_source_pool_holds. Qed.
+Print Assumptions c20_source_pool_own_key.
+
+(* the boolean version evaluated on the certificates the real entities hold is the stated one *)
+Theorem c20_own_source_reflect :
+  forall al certs, own_source_b al certs = true <-> own_source al certs.
+Proof. exact own_source_b_iff. Qed.
+Print Assumptions c20_own_source_reflect.
+
+(* the loader BEFORE ca0d12ee (importlib.import_module(base name), nothing else) violated it, without any
+   concurrency: two tenants, configuration files of one base name in two directories, both present, neither edited -
+   the second tenant holds (and signs with) the first tenant's pair *)
+Theorem c20_loader_v0_refuted :
+  exists d, files_present d = true /\ no_reedit d = true /\ ~ own_source (accounted d) (deploy_certs_v0 d).
+Proof. exact loader_v0_refuted. Qed.
+Print Assumptions c20_loader_v0_refuted.
+
+(* the loader AS IT IS violates it when a configuration file that does not exist is asked for (finding C20-F3, open):
+   the hypothesis files_present of c20_source_own_key cannot be dropped *)
+Theorem c20_loader_missing_refuted :
+  exists d, ~ own_source (accounted d) (deploy_certs d).
+Proof. exact loader_missing_refuted. Qed.
+Print Assumptions c20_loader_missing_refuted.
+
+(* the loader AS IT IS answers a file that was edited after its first load from sys.modules: the entity built
+   afterwards holds a pair its own file named BEFORE (c20_source_own_key covers it), not the one it names now - the
+   hypothesis no_reedit of c20_deploy_own_pair cannot be dropped *)
+Theorem c20_loader_stale_not_fresh :
+  exists d, files_present d = true /\ deploy_certs d <> published d.
+Proof. exact loader_stale_not_fresh. Qed.
+Print Assumptions c20_loader_stale_not_fresh.
+
 (* Configuration objects.  Whatever a configuration object was derived from - loaded from a fresh dict, a
    copy.copy of another entity's Config with key_file/cert_file overridden, a reload of a dict that served
    before - the entities of a deployment load the same keys and certificates: only the path the object names
-   when the entity is built counts (c20_deploy_own_pair: and that is the pair they publish) *)
+   when the entity is built counts (c20_deploy_own_pair: and that is the pair they publish); nor does it matter
+   through which entry point (load_file / config_factory / config_file=) and under which spelling (absolute /
+   relative, with / without ".py") a configuration file is loaded *)
 Theorem c20_config_origin_irrelevant :
   forall d, deploy_keys (map forget_origin d) = deploy_keys d /\ deploy_certs (map forget_origin d) = deploy_certs d.
 Proof. exact lineage_irrelevant. Qed.
@@ -240,3 +313,75 @@ Theorem c20_source2_config_getattr_context : forall c f nm ctx,
     else p2_getattr3_dyn (PObj (("__class__", PStr c) :: f)) (PStr ("_" ++ ctx ++ "_" ++ nm)) PNone.
 Proof. exact src2_config_getattr_context. Qed.
 Print Assumptions c20_source2_config_getattr_context.
+
+(* config.Config._load (the loader of python configuration files, after ca0d12ee) for EVERY loader state st
+   (configuration files on disk, sys.modules, directories left on sys.path), every directory d and base name b:
+   the module handed back is Source2.load_which st d b - the module import_module found (sys.modules keyed by the
+   base name, then sys.path with d in front) unless the file asked for exists and is ANOTHER file: then that file as
+   it is now; ModuleNotFoundError / FileNotFoundError otherwise - and its CONFIG is what Model.load_module says
+   (c20_source2_load_which).  Reverse-applying ca0d12ee makes this theorem fail. *)
+Theorem c20_source2_config_load_module :
+  forall (path_split abspath isfile module_from_spec : pyval -> pyval)
+         (path_insert import_module path_join samefile spec_from_file exec_module : pyval -> pyval -> pyval)
+         (st : lstate) (head_of abs_of base_name : nat -> string) (fil_of file_name : nat -> nat -> string)
+         (config_of : nat -> pyval) (spec_of : nat -> nat -> pyval) (s0 : string) (path_rest : list pyval),
+    (forall d b, path_split (PStr (fil_of d b)) = PList [PStr (head_of d); PStr (base_name b)]) ->
+    (forall s, path_insert (PInt 0%Z) (PStr s) = PNone) ->
+    (forall d b, import_module (PStr (head_of d)) (PStr (base_name b)) =
+                 match import_result st d b with
+                 | Some (d0, c0) => enc_mod file_name config_of d0 b c0
+                 | None => PExc "ModuleNotFoundError"
+                 end) ->
+    (forall d, abspath (if py_truthy (PStr (head_of d)) then PStr (head_of d) else PStr ".") = PStr (abs_of d)) ->
+    (forall d b, path_join (PStr (abs_of d)) (PStr (base_name b ++ ".py")) = PStr (file_name d b)) ->
+    (forall d b, Str.is_empty (file_name d b) = false) ->
+    (forall d b, isfile (PStr (file_name d b)) =
+                 PBool (match cf_read (cfiles st) d b with Some _ => true | None => false end)) ->
+    (forall d0 d b, samefile (PStr (file_name d0 b)) (PStr (file_name d b)) =
+                    match cf_read (cfiles st) d0 b with
+                    | Some _ => PBool (Nat.eqb d0 d)
+                    | None => PExc "FileNotFoundError"
+                    end) ->
+    (forall d b, spec_from_file (PStr (base_name b)) (PStr (file_name d b)) = spec_of d b) ->
+    (forall d b, is_bad (spec_of d b) = false) ->
+    (forall d b, module_from_spec (spec_of d b) =
+                 match cf_read (cfiles st) d b with
+                 | Some c => enc_mod file_name config_of d b c
+                 | None => PExc "FileNotFoundError"
+                 end) ->
+    (forall d b m, exec_module (spec_of d b) m = PNone) ->
+    forall self d b,
+      src2_config_load_module path_split (PList (PStr s0 :: path_rest)) path_insert import_module abspath path_join isfile
+        samefile spec_from_file module_from_spec exec_module self (PStr (fil_of d b))
+      = enc_lres file_name config_of b (load_which st d b).
+Proof. exact src2_config_load_module_is_model. Qed.
+Print Assumptions c20_source2_config_load_module.
+
+Theorem c20_source2_load_which :
+  forall st d b, lres_content (load_which st d b) = fst (load_module true st d b).
+Proof. exact load_which_is_model. Qed.
+Print Assumptions c20_source2_load_which.
+
+(* ... and an entity built from a configuration file (Model.loaded, step DLoadFile) is that load followed by the
+   constructor (c20_source2_security_context) *)
+Theorem c20_source2_loaded_load_file :
+  forall fs cf st d b a sp r,
+    loaded fs cf st (DLoadFile d b a sp :: r)
+    = build_slot fs (lres_content (load_which st d b)) :: loaded fs cf (snd (load_module true st d b)) r.
+Proof. exact loaded_load_file. Qed.
+Print Assumptions c20_source2_loaded_load_file.
+
+(* config.Config.load_file: the name as it is, or with exactly ".py" cut off, goes to _load; the CONFIG of the module
+   handed back is deep-copied and handed to self.load; an exception of the loader comes through *)
+Theorem c20_source2_config_load_file :
+  forall (file_name : nat -> nat -> string) (config_of : nat -> pyval) (deepcopy : pyval -> pyval)
+         (config_load load_fn : pyval -> pyval -> pyval),
+    (forall c, is_bad (config_of c) = false) -> (forall c, deepcopy (config_of c) = config_of c) ->
+    forall self name b r,
+      (endswith name ".py" = false /\ load_fn self (PStr name) = enc_lres file_name config_of b r) \/
+      (endswith name ".py" = true /\ all_ascii name = true /\ 3 <= String.length name /\
+       load_fn self (PStr (substring 0 (String.length name - 3) name)) = enc_lres file_name config_of b r) ->
+      src2_config_load_file load_fn deepcopy config_load self (PStr name) PNone
+      = enc_loaded config_of config_load self b r.
+Proof. exact src2_config_load_file_is_model. Qed.
+Print Assumptions c20_source2_config_load_file.
